@@ -113,6 +113,7 @@ class Spec(object):
     def __init__(self, tags, ext_implied, types, values):
         self.tags = tags
         self.ext_implied = ext_implied
+        self.has_tree = False         # add_tree_family was applied
         self.types = types            # list of (name, T)
         self.values = values          # list of (name, int)
 
@@ -145,7 +146,7 @@ class SpecOpts(object):
         self.reuse_member_names = True
         self.ref_defaults = True      # DEFAULTs on members whose type is a reference (BOOLEAN / INTEGER / ...)
         self.tree_family = .3         # probability of adding a recursive list family with a constrained reference to it
-        self.tree_keep_names = True   # its members keep distinct names (known finding recursive-placeholder-shared-through-cache)
+        self.tree_keep_names = False  # (was True while the finding recursive-placeholder-shared-through-cache was open; repaired in a9607b8)
         self.__dict__.update(kw)
 
 
@@ -305,6 +306,7 @@ def add_tree_family(rng, g, spec, k, force_size=False):
     fam.append((D, doc))
     rng.shuffle(fam)
     spec.types.extend(fam)
+    spec.has_tree = True
 
 
 def chain_has(td, ref, key):
